@@ -224,6 +224,15 @@ def entries(seed=0):
             m = pym.SystemOfEquations([sA, sb, sx], free=f, prescribed=p)
             return m, [sA, sb, sx], m.sig_out
         return fn
+    def soe_nonsym(r):
+        n = 6
+        A = sps.csc_matrix(r.random((n, n)) + n * np.eye(n))
+        f = np.array([0, 2, 3, 5])
+        p_ = np.array([1, 4])
+        sA, sb, sx = S("A", A), S("bf", r.random((len(f), 2))), S("xp", r.random((len(p_), 2)))
+        m = pym.SystemOfEquations([sA, sb, sx], free=f, prescribed=p_)
+        return m, [sA, sb, sx], m.sig_out
+    add("SystemOfEquations/sparse_nonsym/multirhs", soe_nonsym, tol=1e-8, tags=("linsolve",))
     add("SystemOfEquations/sparse", soe(None), tol=1e-8, tags=("linsolve",))
     add("SystemOfEquations/sparse/multirhs", soe(2), tol=1e-8, tags=("linsolve",))
 
@@ -234,6 +243,23 @@ def entries(seed=0):
         m = pym.StaticCondensation(sA, main=np.array([0, 3]), free=np.array([1, 2, 5]))
         return m, [sA], m.sig_out
     add("StaticCondensation/sparse", statcond, tol=1e-8, tags=("linsolve",))
+
+    def statcond_cs(r):
+        n = 5
+        M = r.random((n, n)) + 1j * r.random((n, n))
+        A = sps.csc_matrix(M + M.T + 2 * n * np.eye(n))
+        sA = S("A", A)
+        m = pym.StaticCondensation(sA, main=np.array([1, 3]), free=np.array([0, 2, 4]))
+        return m, [sA], m.sig_out
+    add("StaticCondensation/sparse_complex_sym", statcond_cs, tol=1e-8, tags=("linsolve",))
+
+    def statcond_ns(r):
+        n = 5
+        A = sps.csc_matrix(r.random((n, n)) + n * np.eye(n))
+        sA = S("A", A)
+        m = pym.StaticCondensation(sA, main=np.array([1, 3]), free=np.array([0, 2]))
+        return m, [sA], m.sig_out
+    add("StaticCondensation/sparse_nonsym", statcond_ns, tol=1e-8, tags=("linsolve",))
 
     def eig(kind):
         def fn(r):
